@@ -18,7 +18,7 @@ while read -r line; do
   [ -z "$rel" ] && continue
   base=$(basename "$rel")
   from=""
-  if [ -f "$SRC/$base" ]; then from="$SRC/$base"; elif [ -f "$SRC/$(basename "$src")" ]; then from="$SRC/$(basename "$src")"; fi
+  if [ -f "$SRC/$rel" ]; then from="$SRC/$rel"; elif [ -f "$SRC/$base" ]; then from="$SRC/$base"; elif [ -f "$SRC/$(basename "$src")" ]; then from="$SRC/$(basename "$src")"; fi
   if [ -n "$from" ]; then mkdir -p "$(dirname "$rel")"; cp "$from" "$rel"; placed+=("$rel"); srcs+=("$from"); fi
 done < "$SRC/demo_path.txt"
 echo "placed: ${placed[*]}"
@@ -35,7 +35,7 @@ for f in "${placed[@]}"; do rm -f "$f"; done
 git clean -fdq
 echo "RESULT $P-$K: build=$r_build demo_clean=$r_clean demo_patched=$r_patch pkgtests($pkgs)=$r_tests"
 if [ "$r_build" = 0 ] && [ "$r_clean" = 0 ] && [ "$r_patch" != 0 ] && [ "$r_tests" = 0 ]; then
-  mkdir -p "$DST"; cp "$SRC/patch.diff" "$DST/"; for f in "${srcs[@]}"; do cp "$f" "$DST/"; done; cp "$SRC/demo_path.txt" "$DST/"
+  mkdir -p "$DST"; cp "$SRC/patch.diff" "$DST/"; for f in "${srcs[@]}"; do r="${f#$SRC/}"; mkdir -p "$DST/$(dirname "$r")"; cp "$f" "$DST/$r"; done; cp "$SRC/demo_path.txt" "$DST/"
   python3 - "$SRC/meta.json" "$DST/meta.json" "$pkgs" <<'PY'
 import json,sys
 m=json.load(open(sys.argv[1]))
